@@ -192,6 +192,40 @@ static void in_units()
 		for(size_t i = 0; i < t.size(); i++)
 			for(size_t j = 0; j < 2; j++) if(!mc::same_bits(rm[i][j], t[i][j] / dim)) ok = false;
 		if(!ok) fail("in_units", key, "quotient_wrong", "In_Units does not divide by the unit");
+		// the rounding variants of every overload: entry-wise Round(q/d, digits), for every digits 1..7 (Round admits at most 7)
+		{
+			V w{1.2345678, -98765.4321, 0.000314159265, 7.0e20, 0.0};
+			VV tw{{1.2345678, -98765.4321}, {0.000314159265, 7.0e20}, {5.55555555, -0.0044444444}};
+			double d2 = 3.0 * dim;
+			for(int dg = 1; dg <= 7; dg++)
+			{
+				g_cases++;
+				std::string k2 = key + ",digits=" + std::to_string(dg);
+				V rr = In_Units(w, dim, true, dg);
+				bool o1 = rr.size() == w.size();
+				for(size_t i = 0; o1 && i < w.size(); i++) o1 = mc::same_bits(rr[i], Round(w[i] / dim, dg)) && mc::same_bits(In_Units(w[i], dim, true, dg), Round(w[i] / dim, dg));
+				if(!o1) fail("in_units", k2 + ",overload=list", "rounded_variant_not_Round", "In_Units(list,dim,true,digits) is not Round(q/d,digits) entry by entry");
+				VV r1 = In_Units(tw, dim, true, dg), r2 = In_Units(tw, V{dim, d2}, true, dg);
+				bool o2 = r1.size() == tw.size(), o3 = r2.size() == tw.size();
+				for(size_t i = 0; i < tw.size(); i++)
+					for(size_t j = 0; j < 2; j++)
+					{
+						if(o2 && !(r1[i].size() == 2 && mc::same_bits(r1[i][j], Round(tw[i][j] / dim, dg)))) o2 = false;
+						if(o3 && !(r2[i].size() == 2 && mc::same_bits(r2[i][j], Round(tw[i][j] / (j ? d2 : dim), dg)))) o3 = false;
+					}
+				if(!o2) fail("in_units", k2 + ",overload=table", "rounded_variant_not_Round", "In_Units(table,dim,true,digits) is not Round(q/d,digits) entry by entry");
+				if(!o3) fail("in_units", k2 + ",overload=table_per_column", "rounded_variant_not_Round", "In_Units(table,{dims},true,digits) is not Round(q/d_j,digits) entry by entry");
+				Vector wv(w), rwv = In_Units(wv, dim, true, dg);
+				bool o4 = rwv.Size() == w.size();
+				for(size_t i = 0; o4 && i < w.size(); i++) o4 = mc::same_bits(rwv[i], Round(w[i] / dim, dg));
+				if(!o4) fail("in_units", k2 + ",overload=Vector", "rounded_variant_not_Round", "In_Units(Vector,dim,true,digits) is not Round(q/d,digits) entry by entry");
+				Matrix wm(tw), rwm = In_Units(wm, dim, true, dg);
+				bool o5 = rwm.Rows() == 3 && rwm.Columns() == 2;
+				for(size_t i = 0; o5 && i < 3; i++)
+					for(size_t j = 0; j < 2; j++) if(!mc::same_bits(rwm[i][j], Round(tw[i][j] / dim, dg))) o5 = false;
+				if(!o5) fail("in_units", k2 + ",overload=Matrix", "rounded_variant_not_Round", "In_Units(Matrix,dim,true,digits) is not Round(q/d,digits) entry by entry");
+			}
+		}
 		// multiplication by a unit is undone (to rounding) and rounding to digits is Round(q/d, digits)
 		for(double x : {1.2345678, -9.87654321e-5, 4.0e17})
 			for(double u : {GeV, cm, sec, kg, Kelvin})
@@ -305,7 +339,50 @@ static void configurations()
 		{"MeV", [](std::map<std::string, double>& m) { return 1e-3L * U(GeV); }},
 		{"barn", [](std::map<std::string, double>& m) { return 1e-24L * U(cm) * U(cm); }},
 		{"hPa", [](std::map<std::string, double>& m) { return 1e2L * U(Pa); }},
-		{"mEarth", [](std::map<std::string, double>& m) { return 5.9724e24L * U(kg); }},
+		{"meV", [](std::map<std::string, double>& m) { return 1e-12L * U(GeV); }},
+		{"keV", [](std::map<std::string, double>& m) { return 1e-6L * U(GeV); }},
+		{"TeV", [](std::map<std::string, double>& m) { return 1e3L * U(GeV); }},
+		{"PeV", [](std::map<std::string, double>& m) { return 1e6L * U(GeV); }},
+		{"fm", [](std::map<std::string, double>& m) { return 1e-15L * U(meter); }},
+		{"Angstrom", [](std::map<std::string, double>& m) { return 1e-10L * U(meter); }},
+		{"inch", [](std::map<std::string, double>& m) { return 2.54L * U(cm); }},
+		{"foot", [](std::map<std::string, double>& m) { return 12 * 2.54L * U(cm); }},
+		{"yard", [](std::map<std::string, double>& m) { return 36 * 2.54L * U(cm); }},
+		{"mile", [](std::map<std::string, double>& m) { return 1760 * 36 * 2.54L * U(cm); }},
+		{"pb", [](std::map<std::string, double>& m) { return 1e-12L * U(barn); }},
+		{"hectare", [](std::map<std::string, double>& m) { return 1e4L * U(meter) * U(meter); }},
+		{"kPa", [](std::map<std::string, double>& m) { return 1e3L * U(Pa); }},
+		{"Volt", [](std::map<std::string, double>& m) { return U(Joule) / U(Coulomb); }},
+		{"Volt", [](std::map<std::string, double>& m) { return U(Watt) / U(Ampere); }},
+		{"Coulomb", [](std::map<std::string, double>& m) { return U(Elementary_Charge) / 1.602176565e-19L; }},
+		{"arcmin", [](std::map<std::string, double>& m) { return U(deg) / 60; }},
+		{"arcsec", [](std::map<std::string, double>& m) { return U(deg) / 3600; }},
+		{"deg", [](std::map<std::string, double>& m) { return 3.14159265358979323846264338327950288L / 180; }},
+		{"kpc", [](std::map<std::string, double>& m) { return 1e3L * U(pc); }},
+		{"Mpc", [](std::map<std::string, double>& m) { return 1e6L * U(pc); }},
+		{"ly", [](std::map<std::string, double>& m) { return U(year); }},	// c = 1: the distance light travels in a Julian year
+		{"ly", [](std::map<std::string, double>& m) { return 9460730472580800.0L * U(meter); }},
+		{"mPlanck_reduced", [](std::map<std::string, double>& m) { return U(mPlanck) / sqrtl(8 * 3.14159265358979323846264338327950288L); }},
+		{"kilo", [](std::map<std::string, double>& m) { return 1e3L; }},
+		{"milli", [](std::map<std::string, double>& m) { return 1e-3L; }},
+		{"mega", [](std::map<std::string, double>& m) { return 1e6L; }},
+		{"micro", [](std::map<std::string, double>& m) { return 1e-6L; }},
+		{"giga", [](std::map<std::string, double>& m) { return 1e9L; }},
+		{"nano", [](std::map<std::string, double>& m) { return 1e-9L; }},
+		{"tera", [](std::map<std::string, double>& m) { return 1e12L; }},
+		{"pico", [](std::map<std::string, double>& m) { return 1e-12L; }},
+		{"peta", [](std::map<std::string, double>& m) { return 1e15L; }},
+		{"femto", [](std::map<std::string, double>& m) { return 1e-15L; }},
+		{"exa", [](std::map<std::string, double>& m) { return 1e18L; }},
+		{"atto", [](std::map<std::string, double>& m) { return 1e-18L; }},
+		{"zetta", [](std::map<std::string, double>& m) { return 1e21L; }},
+		{"zepto", [](std::map<std::string, double>& m) { return 1e-21L; }},
+		{"yotta", [](std::map<std::string, double>& m) { return 1e24L; }},
+		{"yocto", [](std::map<std::string, double>& m) { return 1e-24L; }},
+		{"hecto", [](std::map<std::string, double>& m) { return 1e2L; }},
+		{"centi", [](std::map<std::string, double>& m) { return 1e-2L; }},
+		{"deca", [](std::map<std::string, double>& m) { return 1e1L; }},
+		{"deci", [](std::map<std::string, double>& m) { return 1e-1L; }},
 		{"AU", [](std::map<std::string, double>& m) { return 149597870700.0L * U(meter); }},
 		{"G_Newton", [](std::map<std::string, double>& m) { return 1 / U(mPlanck) / U(mPlanck); }},
 	};
@@ -325,7 +402,7 @@ static void configurations()
 		for(auto& n : names)
 			if(vals[0].count(n) && vals[c].count(n) && !(std::fabs(vals[c][n] - vals[0][n]) <= 2 * mc::U_ * std::fabs(vals[0][n]))) fail("units", tag + "," + n, "builds_disagree", n + " = " + mc::dec(vals[c][n]) + " here but " + mc::dec(vals[0][n]) + " with g++ -O0");
 	}
-	mc::sample("Natural_Units.cpp built with g++/clang++ at -O0/-O2; a probe prints " + std::to_string(names.size()) + " constants as hex floats after start-up; 38 defining relations (Joule=kg m^2/s^2, Volt*Coulomb=Joule, Ohm=Volt/Ampere, ...) within 8u in every build, all builds agree within 2u");
+	mc::sample("Natural_Units.cpp built with g++/clang++ at -O0/-O2; a probe prints " + std::to_string(names.size()) + " constants as hex floats after start-up; " + std::to_string(rels.size()) + " defining relations (Joule=kg m^2/s^2, Volt*Coulomb=Joule, Ohm=Volt/Ampere, ...) within 8u in every build, all builds agree within 2u");
 }
 
 int main(int argc, char** argv)
